@@ -70,7 +70,7 @@ def normalised(fn):
     for n in ast.walk(fn):
         if isinstance(n, ast.Name) and n.id in ren: n.id = ren[n.id]
     fn.decorator_list = fn.decorator_list
-    return ast.dump(fn, annotate_fields=False, include_attributes=False)
+    return ast.unparse(fn)       # canonical source text (run with /venv/bin/python, as the checks are)
 
 def functions_in(src):
     """{qualified name: FunctionDef} for module-level functions and methods of module-level classes"""
